@@ -146,7 +146,7 @@ func init() {
 		},
 		{
 			ID:          "C11",
-			Rules:       []RuleUse{{Rule: "R-GATE", Bodies: []string{"v5", "codec"}, KeyHas: []string{"DecodePatch", "sink "}}, use("R-DISPATCH", "v5"), {Rule: "R-RETSHAPE", Bodies: []string{"v5"}, KeyHas: []string{"DecodePatch"}}, {Rule: "R-NIL", Bodies: []string{"v5"}, KeyHas: []string{"(Operation)"}}, {Rule: "R-NUM", Bodies: []string{"v5"}, KeyHas: []string{"decode through"}}},
+			Rules:       []RuleUse{{Rule: "R-GATE", Bodies: []string{"v5", "codec"}, KeyHas: []string{"DecodePatch", "sink "}}, use("R-DISPATCH", "v5"), {Rule: "R-RETSHAPE", Bodies: []string{"v5"}, KeyHas: []string{"DecodePatch"}}, {Rule: "R-NIL", Bodies: []string{"v5"}, KeyHas: []string{"(Operation)"}}, {Rule: "R-NUM", Bodies: []string{"v5"}, KeyHas: []string{"decode through"}}, use("R-SCAN", "codec"), {Rule: "R-DRIVER", Bodies: []string{"codec"}, KeyHas: []string{"Valid", "checkValid", "eof"}}},
 			Explanation: "Decided for the v5 body: R-GATE (malformed JSON is rejected before the validity-assuming parse), R-DISPATCH (b) (the accept/reject decision table kind × required member, extracted from validateOperation by partial evaluation per kind, equals RFC 6902 §4 in the library's dialect; unknown kinds are rejected; Operation.value() is nil only when the member is absent), R-DISPATCH (d) (every element is validated and a rejection reaches a (nil, error) return of DecodePatch), R-RETSHAPE (nil patch with every error), R-NIL over the Operation accessors.",
 			NotDecided:  "type errors inside members (a numeric path) are rejected by the codec's unmarshal-into-string, which is trusted; accessor results equal the decoded members (value-level).",
 			Trusted:     commonTrusted, Assumptions: commonAssumptions,
@@ -160,7 +160,7 @@ func init() {
 		},
 		{
 			ID:          "C13",
-			Rules:       []RuleUse{use("R-OPTSCOPE", "v5"), use("R-MOVE", "v5"), {Rule: "R-ERRCHAIN", Bodies: []string{"v5"}, KeyHas: []string{"handler \"remove\"", "(*partialDoc).remove"}}},
+			Rules:       []RuleUse{use("R-OPTSCOPE", "v5"), use("R-MOVE", "v5"), {Rule: "R-ERRCHAIN", Bodies: []string{"v5"}, KeyHas: []string{"handler \"remove\"", "(*partialDoc).remove"}}, use("R-TOKTAB", "v5"), {Rule: "R-TOKEN", Bodies: []string{"v5"}, KeyHas: []string{"findObject", "(Patch).remove"}}, {Rule: "R-TYPESTATE", Bodies: []string{"v5"}, KeyHas: []string{"findObject"}}, {Rule: "R-NIL", Bodies: []string{"v5"}, KeyHas: []string{"findObject"}}},
 			Explanation: "Decided for the v5 body: R-OPTSCOPE (the option is read only in the remove handler — under the container == nil edge — and in the remove methods of the two containers; every read decides a branch whose option-on edge returns a nil error and whose option-off edge returns a non-nil error, with no membership-changing write before either, so switching it on turns exactly those error returns into no-ops; library code never switches it on; other callers of remove pass options that leave it off), R-MOVE (move's get precedes its remove, so a move from an absent location stays an error), R-ERRCHAIN (the remove handler's and partialDoc.remove's absent-target returns).",
 			NotDecided:  "equality of whole outcomes with the 'patch minus skipped removes' reference (value-level).",
 			Trusted:     commonTrusted, Assumptions: commonAssumptions,
@@ -174,7 +174,7 @@ func init() {
 		},
 		{
 			ID:          "C15",
-			Rules:       []RuleUse{use("R-ESCSET", "codec"), use("R-TABLES", "codec"), use("R-OPTS", "v5"), use("R-INDENT", "v5"), {Rule: "R-GATE", Bodies: []string{"v5"}, KeyHas: []string{"ApplyIndentWithOptions: accepting return"}}, {Rule: "R-COPYLIMIT", Bodies: []string{"v5"}, KeyHas: []string{"measured as spelled"}}, {Rule: "R-KEYS", Bodies: []string{"v5"}, KeyHas: []string{"emitter"}}, {Rule: "R-STALERAW", Bodies: []string{"v5"}}, {Rule: "R-DRIVER", Bodies: []string{"codec"}, KeyHas: []string{"Indent"}}},
+			Rules:       []RuleUse{use("R-ESCSET", "codec"), use("R-TABLES", "codec"), use("R-OPTS", "v5"), use("R-INDENT", "v5"), {Rule: "R-GATE", Bodies: []string{"v5"}, KeyHas: []string{"ApplyIndentWithOptions: accepting return"}}, {Rule: "R-COPYLIMIT", Bodies: []string{"v5"}, KeyHas: []string{"measured as spelled"}}, {Rule: "R-KEYS", Bodies: []string{"v5"}, KeyHas: []string{"emitter"}}, {Rule: "R-STALERAW", Bodies: []string{"v5"}}, {Rule: "R-DRIVER", Bodies: []string{"codec"}, KeyHas: []string{"Indent"}}, {Rule: "R-NUM", Bodies: []string{"v5"}, KeyHas: []string{"RedirectMarshalJSON"}}},
 			Explanation: "Decided: R-ESCSET + R-TABLES (codec; exact byte sets by path enumeration: with the flag on, compact — which copies raw values into the output — rewrites exactly {<,>,&} as \\u00XX and E2 80 A8/A9 as \\u202X, and nothing with the flag off; whether a byte is rewritten depends on nothing but the flag parameter and the bytes; HTMLEscape does the same; the two string encoders backslash-escape exactly the control characters, quote and backslash, plus {<,>,&} iff escapeHTML; the tables safeSet/htmlSafeSet/hex have the required contents; MarshalEscaped hands its argument, Marshal the constant true, to the encoders and on to compact). For the v5 body: R-OPTS (every partialDoc that can reach the output carries the caller's options: all composite literals set opts; decoder-allocated documents get doc.opts before the node becomes eDoc, or the node is a scratch copy / has opts stored before it is published; the emitter passes opts.EscapeHTML — true only when opts is nil — to both of its encoder calls), R-INDENT (ApplyIndent hands Indent exactly the bytes Apply returns, produced by MarshalEscaped(document, options.EscapeHTML), with prefix \"\" and the caller's indent, and returns the buffer Indent wrote), R-COPYLIMIT(ii) (copies are re-encoded with the same encoder and flag as the output), R-KEYS emitter (name then obj[name], keys order), R-STALERAW (a passing test never re-parses or re-spells a document node: comparisons work on scratch copies).",
 			NotDecided:  "that an independent parser reads the output back as the intended value; UTF-8 validity of outputs; byte identity of outputs with and without passing test operations beyond the no-re-parse mechanism.",
 			Trusted:     commonTrusted, Assumptions: commonAssumptions,
@@ -195,14 +195,14 @@ func init() {
 		},
 		{
 			ID:          "C18",
-			Rules:       []RuleUse{use("R-DISPATCH", "legacy"), use("R-TOKEN", "legacy"), use("R-TOKTAB", "legacy"), use("R-REPLACE", "legacy"), use("R-MOVE", "legacy"), use("R-COPYISO", "legacy"), {Rule: "R-NIL", Bodies: []string{"legacy"}, KeyHas: []string{"(Patch)", "(*partial", "findObject", "(*lazyNode)", "deepCopy", "newLazyNode", "(Operation)"}}, use("R-RAW", "legacy"), use("R-STALERAW", "legacy"), use("R-RETSHAPE", "legacy"), use("R-ERRCHAIN", "legacy"), {Rule: "R-ABSENT", Bodies: []string{"legacy"}, KeyHas: []string{"(*partialDoc)", ".equal"}}, use("R-ROOTDISPATCH", "legacy"), use("R-WS", "legacy"), use("R-SUCCESS", "legacy"), use("R-BOUNDS", "legacy"), use("R-NEGIDX", "legacy"), use("R-EQSHAPE", "legacy")},
+			Rules:       []RuleUse{use("R-DISPATCH", "legacy"), use("R-TOKEN", "legacy"), use("R-TOKTAB", "legacy"), use("R-REPLACE", "legacy"), use("R-MOVE", "legacy"), use("R-COPYISO", "legacy"), {Rule: "R-NIL", Bodies: []string{"legacy"}, KeyHas: []string{"(Patch)", "(*partial", "findObject", "(*lazyNode)", "deepCopy", "newLazyNode", "(Operation)"}}, use("R-RAW", "legacy"), use("R-STALERAW", "legacy"), use("R-RETSHAPE", "legacy"), use("R-ERRCHAIN", "legacy"), {Rule: "R-ABSENT", Bodies: []string{"legacy"}, KeyHas: []string{"(*partialDoc)", ".equal"}}, use("R-ROOTDISPATCH", "legacy"), use("R-WS", "legacy"), use("R-SUCCESS", "legacy"), use("R-BOUNDS", "legacy"), use("R-NEGIDX", "legacy"), use("R-EQSHAPE", "legacy"), use("R-NULLSPELL", "legacy")},
 			Explanation: "Decided on the legacy body (which no baseline test compiles): R-DISPATCH (a) (six kinds reach their handlers, unknown kind is an error), R-TOKEN + R-TOKTAB (reference tokens decoded exactly once, RFC 6901 table), R-REPLACE, R-MOVE, R-COPYISO, R-NIL + R-RAW + R-STALERAW (no nil-node or nil-raw dereference), R-RETSHAPE (no document with an error; first failure ends the loop), R-ERRCHAIN (a failed test yields ErrTestFailed and nothing else does; unreachable parents and absent members yield ErrMissing), R-ABSENT (remove and equal distinguish absent from null by comma-ok; get's v4 behaviour is a reviewed exception), R-ROOTDISPATCH + R-WS (the root kind is decided after skipping all JSON whitespace). R-SUCCESS (legacy handlers report success only after performing their operation). R-BOUNDS + R-NEGIDX on the legacy body (an out-of-range index is an error, never a panic; negative indices follow the SupportNegativeIndices package setting).",
 			NotDecided:  "value-level RFC 6902 equivalence.",
 			Trusted:     commonTrusted, Assumptions: commonAssumptions,
 		},
 		{
 			ID:          "C19",
-			Rules:       []RuleUse{use("R-MERGEWIRE", "legacy"), {Rule: "R-NIL", Bodies: []string{"legacy"}, KeyHas: []string{"doMergePatch", "merge", "prune", "Equal", ".equal", "createArrayMergePatch"}}, {Rule: "R-ABSENT", Bodies: []string{"legacy"}, KeyHas: []string{".equal", "mergeDocs"}}, {Rule: "R-MAPORDER", Bodies: []string{"legacy"}}, use("R-MERGESHAPE", "legacy"), use("R-NOPRUNE", "legacy"), use("R-ARRAYS", "legacy"), use("R-PATCHWINS", "legacy"), use("R-CMPSHAPE", "legacy"), use("R-EXH", "legacy"), {Rule: "R-PANIC", Bodies: []string{"legacy"}, KeyHas: []string{"getDiff", "matchesValue", "matchesArray"}}, use("R-EQSHAPE", "legacy")},
+			Rules:       []RuleUse{use("R-MERGEWIRE", "legacy"), {Rule: "R-NIL", Bodies: []string{"legacy"}, KeyHas: []string{"doMergePatch", "merge", "prune", "Equal", ".equal", "createArrayMergePatch"}}, {Rule: "R-ABSENT", Bodies: []string{"legacy"}, KeyHas: []string{".equal", "mergeDocs"}}, {Rule: "R-MAPORDER", Bodies: []string{"legacy"}}, use("R-MERGESHAPE", "legacy"), use("R-NOPRUNE", "legacy"), use("R-ARRAYS", "legacy"), use("R-PATCHWINS", "legacy"), use("R-CMPSHAPE", "legacy"), use("R-EXH", "legacy"), {Rule: "R-PANIC", Bodies: []string{"legacy"}, KeyHas: []string{"getDiff", "matchesValue", "matchesArray"}}, use("R-EQSHAPE", "legacy"), {Rule: "R-ROOTDISPATCH", Bodies: []string{"legacy"}, KeyHas: []string{"untrimmed text", "Equal", "MergePatch", "doMergePatch", "CreateMergePatch"}}, {Rule: "R-NULLSPELL", Bodies: []string{"legacy"}, KeyHas: []string{".equal"}}},
 			Explanation: "Decided on the legacy body: R-MERGEWIRE (mode flags and parameter order of MergePatch / MergeMergePatches), R-NIL over the merge walk and equal (no nil-node dereference), R-ABSENT (equal and mergeDocs tell an absent member from a null one with tested comma-ok lookups), R-MAPORDER (no order-sensitive effect under the map ranges of equal, getDiff, matchesValue). R-MERGESHAPE + R-NOPRUNE + R-ARRAYS + R-PATCHWINS + R-CMPSHAPE on the legacy body (same obligations as C02/C07/C03: flag pass-through, merge's return provenance, every non-null member stored, null members removed or kept by mode, new values pruned first in apply mode, arrays untouched, non-object patch wins, CreateMergePatch's rejection clause and both diff walks). R-EXH (legacy: the standard library's dynamic types are all handled).",
 			NotDecided:  "the merge, diff and composition laws themselves (value-level).",
 			Trusted:     commonTrusted, Assumptions: commonAssumptions,
